@@ -9,7 +9,71 @@ TRUSTED_COMMON = [
     "Rust harness generators/printers and cargo linking /repo's current working tree; rustc 1.95.0 x86-64",
 ]
 
+COMMON_BLOCK_NOTE = "Hand-written model of block_handler/mod.rs and of the expiring map (lru_time_cache) tied to the Rust by running generated exchange sequences through the real server loop (CoapRequest::from_packet -> intercept_request -> application -> intercept_response) with full observation after every exchange: both results, the body the application saw, the response, its encoded length, and -- through the cfg(coap_lite_verif) hook -- the cached state for the request's key (last Block2, digest of the cached response, digest of the upload buffer) and the number of physical cache entries (live clones of the endpoint type). dev and release builds."
+
 PROPS = {
+    "C08": dict(
+        suites=[80],
+        design_ref="DESIGN.md section 5, C08",
+        rule=("suite 80: complete in-order Block2 transfers: the generator plays the client against the implementation (requests recorded, then replayed on implementation and model): every body length 0..3*sz+1 for block sizes 16, 32, 64 (thorough: all of 16..1024) at the budget that picks that size, "
+              "boundary lengths for the larger sizes, the same with early negotiation (Block2 in the first request), bodies of 5000 and 20000 bytes, and 500 (thorough 20000) random transfers over body lengths, budgets 60..1280, client preference none / szx 0..6, mid-transfer size reduction, token length 0..8, four application option sets; "
+              "verdict from the responses alone: payloads concatenate to the body, non-final blocks are full with the more flag, numbers match offsets, every block repeats the application's options, the application ran exactly once, follow-ups were answered by the handler, the cache entry is gone after the final block; class 1 empty body / 2 unfragmented / 3 fragmented / 4 fragmented with early negotiation; distinct = distinct input"),
+        level_text=("Theorems: C08_block_served (for every body incl. the empty one, block number and size: the served payload is bytes [num*size, num*size+size) of the cached body, the more flag is set iff bytes remain, on a copy of the application's version/type/code/options), "
+                    "C08_chunks_reassemble / _from (for every body and block size the chunks taken in order concatenate to the body: induction on the remaining length), C08_followup_from_cache (a follow-up block is answered from the cache without consulting the application and the entry is released exactly when the served block is the last)."),
+        level_note=COMMON_BLOCK_NOTE + " The end-to-end statement over a whole transfer (client loop with size renegotiation) is decided by the suite's oracle on complete transfers, not stated as one theorem.",
+        modelled="src/block_handler/mod.rs intercept_request, intercept_response, maybe_handle_request_block2, maybe_serve_cached_response, packet_clone_limited, negotiate_block_size_if_necessary",
+    ),
+    "C09": dict(
+        suites=[90],
+        design_ref="DESIGN.md section 5, C09",
+        rule=("suite 90: uploads of bodies 0..5000 bytes (every length 0..49 at 16-byte blocks, lengths around block multiples for szx 0..6) with blocks in order, one block repeated 1..3 times, optionally after an abandoned prefix (1..6 blocks) of another body at the same or another block size to the same resource; "
+              "the final block delivered twice (known finding D11); 300 (thorough 3000) requests larger than the budget without Block1; verdict: every non-final block answered 2.31 with Block1 echoing the offset and a size <= the client's, application not reached; final block reaches the application exactly once with exactly the body; 4.13 with a power-of-two size hint; "
+              "class 1 plain / 2 after an abandoned upload / 3 too large; distinct = distinct input"),
+        level_text=("Theorems: C09_splice_extends_prefix (whatever the buffer holds beyond it: once the buffer agrees with the body up to a block's offset, splicing the block in extends the agreement -- so in-order delivery with repeats reconstructs the prefix), C09_final_block_body (the body handed over at the final block is exactly the body sent), "
+                    "C09_block_answer (2.31 Continue + negotiated Block1 without reaching the application for non-final blocks; hand-over with Block1 on the response for the final one), C09_too_large (4.13 with Block1 num 0, more set). Known finding KF_dup_final (C09_KF_dup_final_refuted)."),
+        level_note=COMMON_BLOCK_NOTE,
+        modelled="src/block_handler/mod.rs maybe_handle_request_block1, extending_splice, negotiate_block_size_if_necessary",
+    ),
+    "C10": dict(
+        suites=[100],
+        design_ref="DESIGN.md section 5, C10",
+        rule=("suite 100: 2500 (thorough 60000) first exchanges and short transfers with the budget aimed at bands around overhead + 12 + 2^k, overhead + 28 .. +35, 1277..1280 and random values; overhead varied through token length 0..8, path length 0..100, Uri-Query options and four application option sets; client szx 0..7 or none; uploads with szx 0..6; "
+              "verdict: inside the property's domain (overhead + 28 <= M <= 1280, no Block2 set by the application) every handler-produced message encodes within M, every chosen size is a power of two in 16..1024 and not above the client's; outside only 'no panic'; class 1 in / 2 outside the domain; distinct = distinct input"),
+        level_text=("Theorem C10_chosen_size: for every budget with overhead + 28 <= M <= 1280, whenever negotiate returns a block it has size 2^(k+4), k <= 6, at most M - overhead - 12 (room for the block plus the 12-byte block-option allowance), never above the client's size, and exactly the client's when that fits with 32 bytes to spare."),
+        level_note=COMMON_BLOCK_NOTE + " That the 12-byte allowance really covers the Block1/Block2 options and payload marker the handler adds (the insertion lemma on the wire image) is decided by the suite's length oracle on every produced message, not yet proved.",
+        modelled="src/block_handler/mod.rs negotiate_block_size_if_necessary, compute_message_size_hack; src/block_handler/block_value.rs BlockValue::new",
+    ),
+    "C11": dict(
+        suites=[110],
+        design_ref="DESIGN.md section 5, C11",
+        rule=("suite 110: 2500 (thorough 150000) random sequences of 1..6 requests over 4 cache keys: option bloat up to 1400 bytes (below, at and above the budget and above 1280), Block1/Block2 values with num in {0,1,2,100,4095,4096,65535}, szx 0..7, malformed block option bytes of length 0..4, payloads 0..1200, all four message types, "
+              "budgets {0..64, 1152, 0..5000, 0,12,16,17,28,29,1280,1281}, application replies with bodies 0..10000, large options, pre-set Block2; directed: the 16 KiB jump boundary (16383..32768) followed by a completing block, budgets overhead..overhead+39 with and without Block1; "
+              "verdict: no panic, errors carry a code >= 4.00 or there is no response, the buffer and the body handed on never grow by more than 16 KiB + the request's payload; class by budget range; distinct = distinct input"),
+        level_text=("Theorems for every request with ordered option maps, every budget (0 upward), cached state and application reply: C11_request_no_panic, C11_response_no_panic (the entry points return Ok or Err, never Panic: the size measurement cannot fail fatally, no division by zero, every block value encodes), "
+                    "C11_block1_errors / C11_serve_errors (errors are 4.00/5.00-coded, or 'not handled' exactly when there is no response), C11_growth (buffer and delivered body bounded by previous length + 16384 + payload), C11_rejects_jump (a larger jump is an error and leaves the buffer unchanged)."),
+        level_note=COMMON_BLOCK_NOTE + " usize overflow of offsets is not modelled (num <= 65535 and size <= 2048 keep them below 2^27).",
+        modelled="src/block_handler/mod.rs (all of intercept_request / intercept_response), src/request.rs apply_from_error",
+    ),
+    "C12": dict(
+        suites=[120],
+        design_ref="DESIGN.md section 5, C12",
+        rule=("suite 120: 7 sets of 2-3 transfers whose keys differ in exactly one of endpoint / method / path (segments [a,b] vs [a/b], prefix paths, empty path, trailing empty segment), uploads and downloads mixed, 3-5 exchanges each; all interleavings enumerated (quick: a stride of up to 60 per set and round; thorough: up to 4000); "
+              "the implementation is run interleaved and each transfer alone; verdict: per-transfer observation lists are equal (responses, results, cached state), and every response carries the message id and token of its request; class = number of transfers; distinct = distinct input"),
+        level_text=("Theorems: C12_key_injective / C12_key_path (the cache key separates exactly method, path segment list and requester), C12_intercept_request_is_access / C12_intercept_response_is_access (the entry points are accesses of a per-key machine over the expiring map), "
+                    "C12_noninterference (for EVERY interleaving of any number of transfers of any length, with non-decreasing times: what key k's transfers observe equals what they observe alone -- induction over the event list with the frame lemma of the expiring map), C12_correlation (blocks served from the cache keep the message id and token prepared for the current request)."),
+        level_note=COMMON_BLOCK_NOTE + " Methods outside 0.01-0.07 share one key byte and non-UTF-8 paths collapse to the empty path (documented by C12_key_injective's statement through get_method / get_path_as_vec).",
+        modelled="src/block_handler/mod.rs RequestCacheKey, state lookup, packet_clone_limited; lru_time_cache entry/or_insert/remove_expired",
+    ),
+    "C20": dict(
+        suites=[200],
+        design_ref="DESIGN.md section 5, C20",
+        rule=("suite 200: retention: expiry of one hour, a Block2 transfer or an upload started, then 1, 7, 150 (thorough up to 2000) requests for other keys, then the follow-up: it must be served from the cache / continue on its buffer; expiry: duration 40 ms, 1 or 12 (thorough up to 50) abandoned uploads plus a started transfer, an idle wait of 200 ms, then the follow-up: "
+              "it must reach the application / start from an empty buffer, and only the new entry may remain in the cache (live-clone count of the endpoint type); under the short duration only the exchange after the wait is observed, so scheduling delays cannot raise an alarm; class 1 retention / 2 expiry; distinct = distinct input"),
+        level_text=("Theorems on the expiring-map model with time as a parameter: C20_state_handed (a use of key k is handed the stored state while not expired and the default state afterwards), C20_retained_across_other_keys (any number of uses of other keys never changes what k will see), "
+                    "C20_retained_until_expiry (exact boundary: seen up to and including last use + ttl, never after), C20_reclaimed (after any use every entry physically present has t + ttl >= now) with C20_time_order_invariant and C20_keys_unique as the invariants it needs."),
+        level_note=COMMON_BLOCK_NOTE + " The real clock (Instant monotonicity, sleep granularity) and lru_time_cache's internal consistency between its map and its list are assumed; the model merges them into one time-ordered list.",
+        modelled="src/block_handler/mod.rs BlockHandler::new, states.entry().or_insert(); lru_time_cache 0.11.11 entry, do_peek, remove_expired, do_notify_insert",
+    ),
     "C16": dict(
         suites=[160],
         design_ref="DESIGN.md section 5, C16",
@@ -191,11 +255,5 @@ PROPS = {
 
 # properties not yet claimed (being built); kept current with MANIFEST.not_applicable
 NOT_APPLICABLE = {
-    "C08": "check under construction in this development (model and theorems not yet committed)",
-    "C09": "check under construction in this development (model and theorems not yet committed)",
-    "C10": "check under construction in this development (model and theorems not yet committed)",
-    "C11": "check under construction in this development (model and theorems not yet committed)",
-    "C12": "check under construction in this development (model and theorems not yet committed)",
-    "C20": "check under construction in this development (model and theorems not yet committed)",
 }
-HOOK_COMMITS = ['d43d2bd524872a400aac9458e0598397ea43fdaa', 'd25ab05b2d89767c2eabe189d6733ff858b6e32b']
+HOOK_COMMITS = ['7164e5e8df8d0defeab34a514c409639480fbb24', 'd43d2bd524872a400aac9458e0598397ea43fdaa', 'd25ab05b2d89767c2eabe189d6733ff858b6e32b']
